@@ -178,6 +178,16 @@ impl WorkerTree {
                                 Ok(()) => match &work_item.status {
                                     WorkStatus::Done(result) => {
                                         done_count += 1;
+                                        if work_item.skipped
+                                            && work_item.output_written
+                                            && !work_item.data.is_in_place()
+                                        {
+                                            // the configuration now excludes this file: a run
+                                            // from scratch writes nothing for it
+                                            work_item.output_written = false;
+                                            self.remove_files
+                                                .push(work_item.data.output().to_path_buf());
+                                        }
                                         if result.is_ok() {
                                             log::info!(
                                                 "successfully processed `{}`",
